@@ -368,6 +368,10 @@ def desugar(text, rules, counts):
             c = 1  # done by segment() before the other rules
         elif r == "R-SLICE1":
             text, c = _r_slice1(text)
+        elif r == "R-UFCS":
+            text, c = _r_ufcs(text)
+        elif r == "R-UTF8":
+            text, c = _r_utf8(text)
         else:
             raise SpliceError("unknown desugaring " + r)
         # a listed desugaring without a site is not an error: the list says what MAY be rewritten in this function
@@ -729,4 +733,29 @@ def _r_slice1(text):
     sites = list(re.finditer(r",\s*\[\s*(\w+)\s*\]\s*\)\s*=>\s*\{", m))
     for mt in reversed(sites):
         text = text[:mt.start()] + ", vx_s) if vx_s.len() == 1 => { let %s = &vx_s[0];" % mt.group(1) + text[mt.end():]
+    return text, len(sites)
+
+
+def _r_ufcs(text):
+    """R-UFCS: a method call on the VRF field, `self.vrf.m::<G>(args)`, is written as the free function call
+    `vx_vrf_m::<G, V>(&self.vrf, args)` (universal function call syntax; the VRF trait has async methods, which Verus does not
+    accept in a trait declaration, so its methods are modelled as free functions over the same receiver)."""
+    m = mask(text)
+    sites = list(re.finditer(r"\bself\s*\.\s*vrf\s*\.\s*(\w+)\s*(?:::\s*<([^<>]*)>)?\s*\(", m))
+    for mt in reversed(sites):
+        g = (mt.group(2).strip() + ", V") if mt.group(2) else "V"
+        text = text[:mt.start()] + "vx_vrf_%s::<%s>(&self.vrf, " % (mt.group(1), g) + text[mt.end():]
+    return text, len(sites)
+
+
+def _r_utf8(text):
+    """R-UTF8: `std::str::from_utf8(&x)` (used only to choose between two error-message formats; Verus has no str reasoning) becomes
+    `vx_from_utf8()`, an opaque Result<&'static str, ()>; both arms of the surrounding match stay in the verified text."""
+    m = mask(text)
+    sites = []
+    for mt in re.finditer(r"\bstd\s*::\s*str\s*::\s*from_utf8\s*\(", m):
+        c = match_close(m, mt.end() - 1)
+        sites.append((mt.start(), c + 1))
+    for (a, b) in reversed(sites):
+        text = text[:a] + "vx_from_utf8()" + text[b:]
     return text, len(sites)
